@@ -283,7 +283,7 @@ def braceGroup : Nat → List Str → Bool → Str → Nat → Option (Option (L
     | some (g, c :: cs) =>
       if c = '}' then
         (if comma then some (some (out ++ g, cs))
-         else some (some ((out ++ g).map (fun x => '{' :: x ++ ['}']), c :: cs)))   -- `}` not consumed (shell.rs:573-578)
+         else some (some ((out ++ g).map (fun x => '{' :: x ++ ['}']), cs)))
       else if c = ',' then braceGroup f (out ++ g) true cs d
       else braceGroup f (out ++ g) comma (c :: cs) d
 end
@@ -342,8 +342,9 @@ def takeInt (s : Str) : Option (Str × Str) :=
   let ds := r.takeWhile isDigitA
   if ds = [] then none else some (sgn ++ ds, r.dropWhile isDigitA)
 
-/-- `\{(-?[0-9]+)\.\.(-?[0-9]+)(\.\.)?([0-9]+)?\}` matched at the head of `s` (after `{`) -/
-def rangeAt (s : Str) : Option (Str × Str × Option Str) :=
+/-- `\{(-?[0-9]+)\.\.(-?[0-9]+)(\.\.)?([0-9]+)?\}` matched at the head of `s` (after `{`):
+(start text, end text, increment text, text after the closing brace) -/
+def rangeAt (s : Str) : Option (Str × Str × Option Str × Str) :=
   match takeInt s with
   | none => none
   | some (a, r1) =>
@@ -353,31 +354,33 @@ def rangeAt (s : Str) : Option (Str × Str × Option Str) :=
        | none => none
        | some (b, r3) =>
          -- `(\.\.)?([0-9]+)?\}` with backtracking
-         let tryIncr (r : Str) : Option (Option Str) :=
+         let tryIncr (r : Str) : Option (Option Str × Str) :=
            let ds := r.takeWhile isDigitA
            match r.dropWhile isDigitA with
-           | '}' :: _ => some (if ds = [] then none else some ds)
+           | '}' :: after => some (if ds = [] then none else some ds, after)
            | _ => none
          (match r3 with
           | '.' :: '.' :: r4 =>
             (match tryIncr r4 with
-             | some i => some (a, b, i)
+             | some (i, after) => some (a, b, i, after)
              | none => none)
           | _ =>
             (match tryIncr r3 with
-             | some i => some (a, b, i)
+             | some (i, after) => some (a, b, i, after)
              | none => none)))
     | _ => none
 
-/-- leftmost match of the range regex in `t` -/
-def findRange : Str → Option (Str × Str × Option Str)
-  | [] => none
-  | c :: cs =>
+/-- leftmost match of the range regex in `t`: (text before, start, end, increment, text after) -/
+def findRangeGo : Str → Str → Option (Str × Str × Str × Option Str × Str)
+  | _, [] => none
+  | acc, c :: cs =>
     if c = '{' then
       match rangeAt cs with
-      | some r => some r
-      | none => findRange cs
-    else findRange cs
+      | some (a, b, i, after) => some (acc, a, b, i, after)
+      | none => findRangeGo (acc ++ [c]) cs
+    else findRangeGo (acc ++ [c]) cs
+
+def findRange (t : Str) : Option (Str × Str × Str × Option Str × Str) := findRangeGo [] t
 
 /-- `str::parse::<i32>()` on `-?[0-9]+` / `[0-9]+` -/
 def parseI32 (s : Str) : Option Int :=
@@ -412,7 +415,7 @@ def rangeToken (sep text : Str) : RangeRes :=
   if sep ≠ [] then .unchanged else
   match findRange text with
   | none => .unchanged
-  | some (a, b, i) =>
+  | some (pre, a, b, i, post) =>
     match parseI32 a, parseI32 b with
     | some s, some e =>
       let incr : Option Int := match i with
@@ -423,7 +426,7 @@ def rangeToken (sep text : Str) : RangeRes :=
        | some k =>
          let k := if k ≤ 1 then 1 else k
          let steps := ((if s > e then s - e else e - s) / k).toNat + 2
-         .items (rangeSeq s e k steps s []))
+         .items ((rangeSeq s e k steps s []).map (fun n => pre ++ n ++ post)))
     | _, _ => .abort
 
 def expandRangeGo : List Tok → Option (List Tok)
